@@ -53,10 +53,16 @@ const char TypeErrorMsg[] =
 // This is a standard union-find structure
 template<typename It>
 int find(It data, int i) {
-    if (data[i] == i) return i;
-    int j = find(data, data[i]);
-    data[i] = j;
-    return j;
+    // iterative (find the root, then compress the path): the recursive form overflowed the stack on long
+    // parent chains (a 1 x 1000000 line of foreground pixels)
+    int root = i;
+    while (data[root] != root) root = data[root];
+    while (data[i] != root) {
+        const int next = data[i];
+        data[i] = root;
+        i = next;
+    }
+    return root;
 }
 template<typename It>
 void compress(It data, int i) {
